@@ -18,7 +18,7 @@ L3  CapabilityMon.tla derives what each returned call proves about the capabilit
 import json
 import os
 
-from vlib import Infra, go_test, l1, log, monitor, read_ndjson, report, trace_of
+from vlib import Infra, go_test, l1, log, monitor, read_ndjson, report, trace_any, trace_of
 
 
 def drive(ctx, env, test="TestDrive", sub="drv"):
@@ -78,5 +78,5 @@ def run(ctx, replay=None):
                 "rounds (SetReferrersCapability/Referrers/Push/Delete with a registry that may change its answer); distinct = "
                 "distinct (operations, pre-existing content, options, schedule)",
         "traces_validated_against_impl": (summ["scenarios"] if summ else 0) + (csumm["scenarios"] if csumm else 0),
-        "samples": trace_of(first["files"][0], mid, 12), "exhaustive": False,
+        "samples": trace_any(first["files"], mid, 12), "exhaustive": False,
     }
